@@ -21,6 +21,8 @@
 #include <pika/threading_base/thread_init_data.hpp>
 
 #include <algorithm>
+#include <exception>
+#include <unistd.h>
 #include <atomic>
 #include <chrono>
 #include <cstring>
@@ -720,6 +722,30 @@ int main(int argc, char** argv)
         e2::g_drop = &meet_drop;
     }
     e2::install(seed, perturb);
+    // std::terminate (e.g. an exception leaving the noexcept this_thread::yield): report it with the log instead of ending in
+    // pika's abort handling (seen to hang for half an hour on a seeded tree); SIGALRM's default action bounds the dump itself
+    {
+        static std::string hdr;
+        hdr = "case e2 prog=" + prog + " seed=" + std::to_string(seed) + " size=" + std::to_string(size) + " tasks=0";
+        std::set_terminate([] {
+            alarm(60);
+            e2::g_enabled.store(false);
+            std::string what = "no active exception";
+            if (auto ep = std::current_exception())
+            {
+                try { std::rethrow_exception(ep); }
+                catch (std::exception const& e) { what = e.what(); }
+                catch (...) { what = "an exception that is not derived from std::exception (e.g. pika::thread_interrupted)"; }
+            }
+            std::printf("%s\n", hdr.c_str());
+            e2::dump(stdout);
+            for (auto const& m : g_monitor) std::printf("monitor %s\n", m.c_str());
+            std::printf("monitor std::terminate was called while the program ran: %s\n", what.substr(0, 300).c_str());
+            std::printf("end crash terminate\nendcase\n");
+            std::fflush(stdout);
+            _exit(0);
+        });
+    }
 
     std::vector<char const*> av{argv[0]};
     bool nosteal = false;
@@ -810,7 +836,7 @@ int main(int argc, char** argv)
                         t.join();
                         g.resume_();
                     }
-                    for (int batch = 0; batch < 4; ++batch)
+                    for (int batch = 0; batch < 4 + 4 * size; ++batch)
                     {
                         int m = 16 + int(r2.below(9));
                         std::vector<pika::thread> later;
